@@ -133,54 +133,54 @@ def templates():
 
     for sh, car in [(('struct', [('named', ['p', 'i', 'm'])]), 'PartialEq'), (('enum', [('tuple', ['m', 'q', 'i']), ('named', ['i', 'p']), ('unit', [])]), 'Eq'),
                     (('struct', [('tuple', ['q', 'm'])]), 'Eq'), (('enum', [('named', ['p', 'm']), ('tuple', ['i'])]), 'PartialEq')]:
-        def mk(modname, cfgid, xf, sh=sh, car=car):
+        def mk(modname, cfgid, xf, sp=None, sh=sh, car=car):
             t = p_c02.build(sh, car, car == 'Eq')
-            return p_c02.emit(t, modname, cfgid, xf=xf)
+            return p_c02.emit(t, modname, cfgid, xf=xf, sp=sp)
         T.append((f'PartialEq:{S.shape_id(sh)}/{car}', ['PartialEq', 'Eq'], [x for x in ALL if x not in ('PartialEq', 'Eq')], mk))
 
     for k, (fl, r, mode) in enumerate([(['p', 'm', 'i'], [7, -3, None], 'both_ord'), (['n', 'p', 'm'], [None, 0, -3], 'pord'), (['p', 'p', 'm'], [0, 7, -3], 'ordonly'), (['m', 'i', 'p'], [None, None, None], 'both_pord')]):
-        def mk(modname, cfgid, xf, fl=fl, r=r, mode=mode, k=k):
+        def mk(modname, cfgid, xf, sp=None, fl=fl, r=r, mode=mode, k=k):
             shape, ranks = p_c03.place(fl, r, k + 2)
-            return p_c03.emit(modname, cfgid, shape, ranks, mode, xf=xf)
+            return p_c03.emit(modname, cfgid, shape, ranks, mode, xf=xf, sp=sp)
         T.append((f'Ord:{"".join(fl)}/{mode}', ['PartialOrd', 'Ord', 'PartialEq', 'Eq'], ['Debug', 'Clone', 'Copy', 'Hash', 'Default', 'Deref', 'DerefMut', 'Into'], mk))
 
     for sh in [('struct', [('tuple', ['p', 'i', 'm'])]), ('enum', [('named', ['m', 'w']), ('tuple', ['i', 'p']), ('unit', [])]), ('struct', [('named', ['w', 'm'])])]:
-        def mk(modname, cfgid, xf, sh=sh):
-            return p_c05.emit(modname, cfgid, sh, False, xf=xf)
+        def mk(modname, cfgid, xf, sp=None, sh=sh):
+            return p_c05.emit(modname, cfgid, sh, False, xf=xf, sp=sp)
         T.append((f'Hash:{S.shape_id(sh)}', ['Hash'], [x for x in ALL if x != 'Hash'], mk))
 
     D = p_c06
     for spc in [D.Spec('struct', 'Rn', [dict(kind='named', vname=None, nf=None, fields=['r', 'i', 'm'])]),
                 D.Spec('enum', True, [dict(kind='tuple', vname=None, nf=None, fields=['p', 'm']), dict(kind='named', vname='Rv', nf=None, fields=['i', 'r']), dict(kind='unit', vname=None, nf=None, fields=[])]),
                 D.Spec('struct', None, [dict(kind='tuple', vname=None, nf=None, fields=['m', 'p'])], True)]:
-        def mk(modname, cfgid, xf, spc=spc):
-            return p_c06.emit(modname, cfgid, copy.deepcopy(spc), xf=xf, modes=('compact',))
+        def mk(modname, cfgid, xf, sp=None, spc=spc):
+            return p_c06.emit(modname, cfgid, copy.deepcopy(spc), xf=xf, modes=('compact',), sp=sp)
         T.append((f'Debug:{D.spec_id(spc)}', ['Debug'], ['Clone', 'Copy', 'PartialEq', 'Hash', 'PartialOrd', 'Default'], mk))
 
     for sh, cp in [(('struct', [('named', ['m', 'b', 'u'])]), False), (('enum', [('tuple', ['b', 'm']), ('named', ['u']), ('unit', [])]), False), (('enum', [('tuple', ['l', 'k']), ('named', ['u', 'l'])]), True)]:
-        def mk(modname, cfgid, xf, sh=sh, cp=cp):
-            return p_c07.emit(modname, cfgid, sh, cp, xf=xf)
+        def mk(modname, cfgid, xf, sp=None, sh=sh, cp=cp):
+            return p_c07.emit(modname, cfgid, sh, cp, xf=xf, sp=sp)
         T.append((f'Clone:{S.shape_id(sh)}/copy={int(cp)}', ['Clone', 'Copy', 'PartialEq', 'Debug'], ['Hash', 'PartialOrd', 'Default', 'Deref', 'DerefMut', 'Into'], mk))
 
     for (kind, vs, marked, te, new) in [('struct', [('named', ['e', 'd', 'e'])], 0, False, True), ('enum', [('unit', []), ('tuple', ['e', 'd']), ('named', ['d'])], 1, False, False), ('struct', [('tuple', ['d', 'e'])], 0, True, False)]:
-        def mk(modname, cfgid, xf, kind=kind, vs=vs, marked=marked, te=te, new=new):
-            return p_c08.emit(modname, cfgid, kind, vs, marked, te, new, xf=xf)
+        def mk(modname, cfgid, xf, sp=None, kind=kind, vs=vs, marked=marked, te=te, new=new):
+            return p_c08.emit(modname, cfgid, kind, vs, marked, te, new, xf=xf, sp=sp)
         T.append((f'Default:{p_c08.vid(kind, vs, marked, te, new, False)}', ['Default', 'PartialEq', 'Debug'], ['Clone', 'Copy', 'Hash', 'PartialOrd', 'Deref', 'DerefMut', 'Into'], mk))
 
     specs9 = p_c09.variant_specs(True)
     for idx in (5, 40, 77):
         sp9 = specs9[idx % len(specs9)]
-        def mk(modname, cfgid, xf, sp9=sp9):
-            return p_c09.emit(modname, cfgid, 'struct', [sp9], True, xf=xf)
+        def mk(modname, cfgid, xf, sp=None, sp9=sp9):
+            return p_c09.emit(modname, cfgid, 'struct', [sp9], True, xf=xf, sp=sp)
         T.append((f'Deref:{p_c09.sid(sp9)}', ['Deref', 'DerefMut'], ['Debug', 'Clone', 'PartialEq', 'Hash', 'PartialOrd', 'Into'], mk))
-    def mk9e(modname, cfgid, xf):
-        return p_c09.emit(modname, cfgid, 'enum', [specs9[9], specs9[30]], True, xf=xf)
+    def mk9e(modname, cfgid, xf, sp=None):
+        return p_c09.emit(modname, cfgid, 'enum', [specs9[9], specs9[30]], True, xf=xf, sp=sp)
     T.append(('Deref:enum2', ['Deref', 'DerefMut'], ['Debug', 'Clone', 'PartialEq', 'Hash', 'PartialOrd'], mk9e))
 
     for (ftys, targets, rot) in [(['u8', 'u16'], ['u16', 'u32'], 1), (['u8', 'u8', 'u32'], ['u8', 'u32', 'Wr'], 0)]:
-        def mk(modname, cfgid, xf, ftys=ftys, targets=targets, rot=rot):
+        def mk(modname, cfgid, xf, sp=None, ftys=ftys, targets=targets, rot=rot):
             v0 = p_c10.build_variant(0, 'named', ftys, targets, rot)
-            return p_c10.emit(modname, cfgid, 'struct', [v0], targets, xf=xf)
+            return p_c10.emit(modname, cfgid, 'struct', [v0], targets, xf=xf, sp=sp)
         T.append((f'Into:{",".join(ftys)}->{",".join(targets)}', ['Into', 'Clone', 'Copy'], ['Debug', 'PartialEq', 'Hash', 'PartialOrd', 'Default', 'Deref', 'DerefMut'], mk))
     return T
 
@@ -220,7 +220,9 @@ def gen(tier, seed):
             if 'DerefMut' in st and 'Deref' not in st:
                 st.insert(0, 'Deref')
             xf = make_xf(st, ti + si)
-            m = mk(f'm{n:04d}', f'{name} + bystanders {{{", ".join(st)}}}', xf)
+            split = (ti + si) % 2 == 1
+            sp = Spelling(force={'grouping': 1, 'traitorder': 1 + (ti + si) % 3}) if split else None
+            m = mk(f'm{n:04d}', f'{name} + bystanders {{{", ".join(st)}}}' + ('/separate #[educe] attributes, rotated' if split else ''), xf, sp)
             if m is not None:
                 mods.append(m)
                 n += 1
